@@ -170,7 +170,7 @@ fn withinvar_from_cs(chain_stats: &[&ChainStats]) -> (Array1<f32>, Array1<f32>) 
             .expect("Expected broadcasting to succeed"))
     .into_dimensionality()
     .expect("Expected casting dimensionality to Array1 to succeed");
-    let between = diffs.pow2().sum_axis(Axis(0)) / (diffs.len() - 1) as f32;
+    let between = diffs.pow2().sum_axis(Axis(0)) / (diffs.nrows() - 1) as f32;
 
     let n: f32 = chain_stats.iter().map(|x| x.n as f32).sum::<f32>() / chain_stats.len() as f32;
     let var = between + within.clone() * ((n - 1.0) / n);
